@@ -307,6 +307,32 @@ def run_config(ctx, rep, cfg, F):
                 rep.ok("R01.3", where, "answer:" + cls[0])
             lost_entries(rep, F, where, p)
             n += 1
+    # Entry::and_modify: the closure sees the resident value of an occupied entry exactly once; a vacant entry is handed back untouched
+    short = "Entry::and_modify"
+    if short in F.short:
+        key = (cfg, "entry;" + short)
+        if key not in ctx._paths:
+            ctx._paths[key] = absint.explore(F, None, None, dict(OPTS, loop_bound=2), program=C.entry_then(F, short, None))
+        for p in C.complete(ctx._paths[key]):
+            T = table_of(p)
+            cls = classify(C.Walk(p, T, "0", "prefix"))
+            cbs = [e for e in p.ev("user_callback")]
+            got = repr(p.result[1]).replace("?", "")
+            if cls[0] == "present":
+                want_arg = "&mut %s[%s].value.some" % (T, cls[1])
+                if len(cbs) != 1 or cbs[0]["args"] != [want_arg] or not got.startswith("Entry::Occupied"):
+                    rep.bad("R01.3", "PrefixMap::entry;" + short, "occupied", "and_modify on a stored key must call the closure once with %s and return the occupied "
+                            "entry; callbacks %s, result %s" % (want_arg, [e["args"] for e in cbs], got[:80]), config=cfg)
+                else:
+                    rep.ok("R01.3", "PrefixMap::entry;" + short, "occupied: closure on the resident value")
+            elif cls[0] in ("valueless", "absent"):
+                if cbs or not got.startswith("Entry::Vacant"):
+                    rep.bad("R01.3", "PrefixMap::entry;" + short, "vacant", "and_modify on an absent key must not call the closure and must return the vacant "
+                            "entry; callbacks %s, result %s" % ([e["args"] for e in cbs], got[:80]), config=cfg)
+                else:
+                    rep.ok("R01.3", "PrefixMap::entry;" + short, "vacant: untouched")
+            if any(e.kind in ("value_write", "prefix_write", "link_write") and (e.kind != "value_write" or e["old"] != e["new"]) for e in p.events):
+                rep.bad("R01.3", "PrefixMap::entry;" + short, "mutates", "and_modify itself changes the map", config=cfg)
     for where, paths in C.retain_paths(ctx, F):
         for p in C.complete(paths):
             lost_entries(rep, F, where, p)
